@@ -189,6 +189,10 @@ class Unit:
                 raise X.ExtractError('%s: presub /%s/ fired %d < %d' % (self.name, pat, n, mn))
         text = rw.generic(text, o)
         text = rw.tmpl_types(text, o)
+        if o.get('iters'):
+            text = rw.iterators(text, o['iters'])
+        if o.get('vec'):
+            text = rw.vectors(text, o['vec'].split(','))
         if o.get('byval'):
             text = rw.byval(text, o['byval'].split(','))
         if o.get('byptr'):
@@ -338,8 +342,8 @@ def run_one(unit, run, workdir, tier='quick', keep=False, extra_flags='', trace_
     if tier == 'thorough':
         timeout *= 4
     solver = extra_flags
-    cb = 'cbmc --object-bits %s --no-malloc-may-fail --no-standard-checks %s %s %s' % (
-        run.get('objbits', '12'), flags, solver, b)
+    ob = ('--object-bits %s ' % run['objbits']) if run.get('objbits') else ''
+    cb = 'cbmc %s--no-malloc-may-fail --no-standard-checks %s %s %s' % (ob, flags, solver, b)
     res['cmd'] = ' && '.join(x for x in (cmd1, gi, cb) if x)
     rc, out3, secs = sh(cb, timeout, mem_gb=int(run.get('mem', 8)))
     res['solver_s'] = round(secs, 2)
@@ -360,7 +364,12 @@ def run_one(unit, run, workdir, tier='quick', keep=False, extra_flags='', trace_
         res['status'] = 'no-result'
         res['out'] = out3[-3000:]
         return res
-    failed = [p for p in props if p['res'] != 'SUCCESS']
+    failed = [p for p in props if p['res'] in ('FAILURE', 'ERROR')]
+    unknown = [p for p in props if p['res'] == 'UNKNOWN']
+    res['unknown'] = len(unknown)
+    if unknown and not failed:
+        res['status'] = 'unknown-properties'
+        return res
     canary = [p for p in failed if 'VF_CANARY' in p['desc']]
     failed = [p for p in failed if 'VF_CANARY' not in p['desc']]
     res['canary'] = 'reachable' if canary else ('absent' if not any('VF_CANARY' in p['desc'] for p in props) else 'UNREACHABLE')
